@@ -68,6 +68,19 @@
                    {% with w = 'W' %}{% for it in ['I'] %}[{{ attempt(bad) }}]{{ x }}/{{ w }}/{{ it }}/{{ loop.index }}/{{ leak is defined }}{% endfor %}{{ w }}{% endwith %}|{{ x }}/{{ w is defined }}END";
         let out = env.render_named_str("e.html", src, ()).unwrap();
         assert!(out == "[ERR]outer/W/I/1/FalseW|outer/FalseEND", "state after a failed macro call: {out:?}");
+        // loop controls in nested loops leave the inner loop only (no with / capture involved)
+        #[cfg(feature = "loop_controls")]
+        {
+            let out = env.render_named_str("lc.html", "{% for a in [1, 2] %}{% for b in [1, 2] %}{{ a }}{{ b }}{% break %}{% endfor %},{% endfor %}|after:{{ loop|default('none') }}", ()).unwrap();
+            assert!(out == "11,21,|after:none", "break in a nested loop: {out:?}");
+            let out = env.render_named_str("lc2.html", "{% with w = 1 %}{% for a in [1, 2] %}{% for b in [1, 2, 3] %}{% if b == 2 %}{% continue %}{% endif %}{{ a }}{{ b }}{% endfor %};{% endfor %}{% endwith %}{{ w is defined }}", ()).unwrap();
+            assert!(out == "1113;2123;False", "continue in a nested loop: {out:?}");
+        }
+        // macro and call bodies do not write into the closure shared with sibling macros
+        let out = env.render_named_str("cl.html", "{% set outer = 'o' %}{% macro a(x) %}[{{ x }}{{ outer }}]{% endmacro %}{% macro b() %}[{{ x|default('unset') }}{{ outer }}]{% endmacro %}{{ a('arg') }}{{ b() }}{{ x is defined }}", ()).unwrap();
+        assert!(out == "[argo][unseto]False", "macro argument leaked into a sibling macro: {out:?}");
+        let out = env.render_named_str("cl2.html", "{% set who = 'top' %}{% macro show() %}<{{ who }}>{% endmacro %}{% macro wrap() %}{{ caller() }}{% endmacro %}{% call wrap() %}{% set who = 'inner' %}{{ who }}{% endcall %}{{ show() }}{{ who }}", ()).unwrap();
+        assert!(out == "inner<top>top", "set inside a call body leaked: {out:?}");
         // a failing include inside a loop survived through `ignore`-less host retry: render twice from the same env
         env.add_template("failing.html", "{% set cap %}{{ boom() }}{% endset %}").unwrap();
         let t = "{% for i in [1, 2] %}{{ i }}{% endfor %}{% include 'failing.html' %}";
